@@ -21,3 +21,9 @@ func (e *W3) Error() string { return e.Err.Error() }
 func (e *W1) Unwrap() error { return e.Err }
 func (e *W2) Unwrap() error { return e.Err }
 func (e *W3) Unwrap() error { return e.Err }
+
+// the wrapper family also carries an extension mark (as the library's domain wrapper does): renamed
+// types that implement TypeKeyMarker are renamed types like any other
+func (e *W1) ErrorKeyMarker() string { return "ext" }
+func (e *W2) ErrorKeyMarker() string { return "ext" }
+func (e *W3) ErrorKeyMarker() string { return "ext" }
